@@ -91,6 +91,9 @@ def gen_model(rng, name, depth, lib, top):
                 m['inputs'].append(base)
             else:
                 m['inputs'].extend('%s[%d]' % (base, i) for i in range(n))
+        if rng.random() < 0.2:
+            # an ordinary data input that carries a name some other design uses for its clock
+            m['inputs'].append(rng.choice(['ck', 'gclk']))
     else:
         m['inputs'] = ['%si%d' % (name[0], i) for i in range(rng.randint(1, 3))]
     avail = list(m['inputs'])
@@ -315,6 +318,14 @@ def gen_case(streams, tier):
     ins = [i for i in models[0]['inputs'] if i != 'clk']
     tape = [{i: streams['inputs'].randrange(2) for i in ins} for _ in range(ncyc)]
     f = streams['faults']
+    clock = 'clk'
+    if f.random() < 0.35:
+        used_names = set()
+        for m_ in models:
+            used_names.update(m_['inputs'])
+        cands = [c for c in ('ck', 'gclk', 'clock') if c not in used_names]
+        if cands:
+            clock = f.choice(cands)
     fail_first = None
     if f.random() < 0.3:
         # a broken variant of the same file (one malformed cover at the end of one model) is
@@ -326,6 +337,7 @@ def gen_case(streams, tier):
             'io_perm': f.getrandbits(32) if f.random() < 0.4 else None,
             # top_model left to its default (the first model listed) when 'top' is listed first
             'default_top': f.random() < 0.5,
+            'clock': clock,
             'sched': world.gen_sched(streams, with_iter=False)}
 
 
@@ -340,7 +352,11 @@ def blif_text(case, broken=None):
             bad = ['.names %s zz_bad' % src, '0 0' if broken['kind'] == 'offset' else '1 1 1']
             t = t[:-len('.end')] + '\n'.join(bad) + '\n.end'
         parts.append(t)
-    return '\n\n'.join(parts) + '\n'
+    text = '\n\n'.join(parts) + '\n'
+    ck = case.get('clock') or 'clk'
+    if ck != 'clk':
+        text = re.sub(r'(?<![\w\[\].])clk(?![\w\[\].])', ck, text)
+    return text
 
 
 # ---------------------------------------------------------------------------------------
@@ -356,7 +372,7 @@ def run(case, res):
     top = case['models'][0]
     tags = ['blif', 'merge' if case['merge'] else 'unmerged'] + _feature_tags(case)
     # the reference(s): latch init codes 2/3 admit both values
-    probe = BlifRef(text, top='top')
+    probe = BlifRef(text, top='top', clock=case.get('clock') or 'clk')
     nfree = probe.count_free_latches()
     if nfree > 3:
         return None
@@ -366,7 +382,8 @@ def run(case, res):
         try:
             with transforms.quiet():
                 pyrtl.input_from_blif(blif_text(case, case['fail_first']), block=scratch,
-                                      merge_io_vectors=case['merge'], top_model='top')
+                                      merge_io_vectors=case['merge'], top_model='top',
+                                      clock_name=case.get('clock') or 'clk')
         except pyrtl.PyrtlError:
             res.faults.hit('malformed_file_refused_first')
         else:
@@ -377,10 +394,12 @@ def run(case, res):
         src = io.StringIO(text) if case['as_file'] else text
         with transforms.quiet():
             if case.get('default_top') and case['morder'][0] == 0:
-                pyrtl.input_from_blif(src, block=blk, merge_io_vectors=case['merge'])
+                pyrtl.input_from_blif(src, block=blk, merge_io_vectors=case['merge'],
+                                      clock_name=case.get('clock') or 'clk')
                 res.probes.hit('top_model_defaulted')
             else:
-                pyrtl.input_from_blif(src, block=blk, merge_io_vectors=case['merge'], top_model='top')
+                pyrtl.input_from_blif(src, block=blk, merge_io_vectors=case['merge'], top_model='top',
+                                      clock_name=case.get('clock') or 'clk')
         blk.sanity_check()
         sim = pyrtl.Simulation(tracer=pyrtl.SimulationTrace(block=blk), block=blk)
     except Exception as e:
@@ -421,7 +440,7 @@ def run(case, res):
     ok = False
     first_bad = None
     for choice in itertools.product((0, 1), repeat=nfree):
-        ref = BlifRef(text, top='top', latch_choice=list(choice))
+        ref = BlifRef(text, top='top', clock=case.get('clock') or 'clk', latch_choice=list(choice))
         good = True
         for ci, cyc in enumerate(case['tape']):
             exp = pack(outs, ref.step(dict(cyc)))
